@@ -126,6 +126,16 @@ def gen_seek_history(r, nbuild, nrounds):
         for _ in range(r.choice([5, 30])):
             k, c = near_key(r, fl, pool)
             ops += ["cur 0 tokey %s %s %d" % (r.choice(["eq", "ge"]), G.H(k), c), "cur 0 key"]
+        # the cursor stays where a seek put it while puts next to it fill and split its node: it must still address its record
+        for _ in range(r.choice([0, 2, 6])):
+            k, c = r.choice(pool)
+            ops += ["cur 0 tokey ge %s %d" % (G.H(k), c), "cur 0 key"]
+            for _ in range(r.choice([1, 8, 40])):
+                k2, c2 = near_key(r, fl, pool)
+                ops.append("put 1 %s %d %s 0 %d" % (G.H(k2), c2, G.H(G.gen_value(r, big=False)), G.gen_level(r)))
+                if r.random() < 0.3:
+                    ops.append("cur 0 get")
+            ops += ["cur 0 key", "cur 0 to %s" % r.choice(["next", "prev"]), "cur 0 key"]
     ops += ["cur 0 close", "dump 1", "close"]
     return ops
 
